@@ -149,13 +149,12 @@ def check_circuits(ctx, prep, shapes, cases, viol, stats):
         stats["evaluations"] += 3
         stats["circuits"] += 1
         for way, why in judge(c, r):
-            gates = sorted({o["g"] for o in c["ops"]})
-            key = f"shape{c['shape']}/{way}/" + ("prep" if not c["ops"] else "+".join(gates)) + \
-                  ("/sym" if c["params"] else "")
+            cat = "prep" if not c["ops"] else c["ops"][0]["g"] if len(c["ops"]) == 1 else "multi"
+            key = f"shape{c['shape']}/{way}/{cat}" + (f"/sym{len(c['params'])}" if c["params"] else "")
             viol.setdefault(key, []).append(
                 (f"{circ_text(sh, c['ops'])} via {way}: {why}",
                  {"shape": sh, "shape_id": c["shape"], "ops": c["ops"], "params": c["params"],
-                  "bools": c["bools"], "st": c["st"], "way": way, "why": why}))
+                  "bools": c["bools"], "st": c["st"], "way": way, "why": why, "prep": prep}))
     return res
 
 
@@ -203,6 +202,19 @@ def sample(rng, shapes, alphabet, n, maxlen):
     return out
 
 
+def probes(shapes):
+    """two-symbol circuits on every layout, symbols first used in both orders and on different qubits"""
+    out = []
+    g = lambda name, q, kind, s: {"g": name, "qs": [q], "a": [[kind, s]], "bit": -1, "b": -1}
+    for i, sh in enumerate(shapes):
+        n = sum(size for _, size in sh["q"])
+        for first, second in (("y", "x"), ("x", "y")):
+            out.append({"shape": i + 1, "ops": [g("rz", 0, "sym", first), g("rx", n - 1, "sym", second)]})
+            out.append({"shape": i + 1, "ops": [g("ry", n - 1, "sym2", first), g("rz", 0, "symp", second),
+                                                g("rx", 0, "sym", first)]})
+    return out
+
+
 def run(ctx):
     ctx.level = "model_checking"
     viol, stats = {}, {"evaluations": 0, "circuits": 0, "signatures": 0, "sig_accept": 0}
@@ -224,7 +236,7 @@ def run(ctx):
         if len(c["ops"]) == 1:
             alphabet[c["shape"] - 1].append(c["ops"][0])
     rng = random.Random(ctx.seed * 104729 + 26)
-    sampled = sample(rng, shapes, alphabet, ctx.pick(120, 2500), ctx.pick(4, 4))
+    sampled = probes(shapes) + sample(rng, shapes, alphabet, ctx.pick(120, 2500), ctx.pick(4, 4))
     expect = tlc_cases(ctx, sampled)
     # one measurement branch per sampled circuit (chosen by the seed), all branches in thorough
     by_cid = {}
@@ -277,7 +289,7 @@ def replay(ctx, data):
             print(c["kind"], c["cand"], "spec accept:", c["expected_accept"], "code:", q_pytket.run_sigs(job))
             continue
         job = {"key": "r", "shape": c["shape"], "ops": c["ops"], "nparams": len(c["params"]),
-               "prep": tlc_enum(ctx, "Pytket_self.cfg")[0], "force": forced(c["shape"], c["ops"]), "validate": False}
+               "prep": c.get("prep") or tlc_enum(ctx, "Pytket_self.cfg")[0], "force": forced(c["shape"], c["ops"]), "validate": False}
         r = q_pytket.run_case(job)
         print(circ_text(c["shape"], c["ops"]), "recorded:", c["way"], c["why"])
         print(r.get("src"))
